@@ -9,7 +9,7 @@
 //!   20004  multi-threaded circuit evaluation (add/sub/sll/... wrappers) vs single-threaded, raw limbs
 //!   20005  one shared Module + prepared keys + read-only ciphertexts used by N threads with private scratch vs alone
 //!   20006  addresses of the windows returned by the real `Scratch::split_mut`
-//!   20007  (probe, only through `exec`) the documented scratch precondition with an exact-size arena
+//!   20007  the documented scratch sizing (threads * per-thread tmp_bytes, nothing added): does split_mut panic?
 use poulpy_bin_fhe::bdd_arithmetic::tests::test_suite::TestContext;
 use poulpy_bin_fhe::bdd_arithmetic::{
     Add, And, BitSize, ExecuteBDDCircuit, FheUint, FheUintPrepare, FheUintPrepared, GetBitCircuitInfo, GetGGSWBit, GetGGSWBitMut,
@@ -303,17 +303,19 @@ macro_rules! backend_impl {
                 vec![vec![(got == *reference) as i128, nonzero as i128]]
             }
 
-            /// one independent job: encrypt, evaluate an op single-threaded, prepare one bit — all on shared module/keys
+            /// one independent job on the shared module / keys / read-only operands, private scratch everywhere:
+            /// encrypt, evaluate one op single-threaded, another op multi-threaded (nested threads), prepare 3 bits with 2 threads
             fn job(k: usize, seed: u64, ops: &(Prep, Prep)) -> Vec<u8> {
                 let ctx = &*CTX;
                 let s = seed.wrapping_mul(1000).wrapping_add(k as u64);
                 let (_, c) = ciphertext(s);
                 let mut out: Vec<u8> = glwe_bytes_ref(&c);
                 out.extend(eval_bytes((k % 10) as i128, 0, &ops.0, &ops.1));
+                out.extend(eval_bytes(((k + 3) % 10) as i128, 2 + k % 5, &ops.0, &ops.1));
                 let mut p: Prep = FheUintPrepared::alloc_from_infos(&ctx.module, &ctx.ggsw_infos());
-                let mut scratch: ScratchOwned<BE> = ScratchOwned::alloc(prep_tmp(&c) + 128);
-                p.prepare_custom(&ctx.module, &c, k % 32, 1, &ctx.bdd_key, scratch.borrow());
-                out.extend(prep_bit_bytes(&p, k % 32));
+                let mut scratch: ScratchOwned<BE> = ScratchOwned::alloc(2 * (prep_tmp(&c) + 64) + 64);
+                p.prepare_custom_multi_thread(2, &ctx.module, &c, k % 30, 3, &ctx.bdd_key, scratch.borrow());
+                for i in 0..32 { out.extend(prep_bit_bytes(&p, i)); }
                 out
             }
             fn glwe_bytes_ref(c: &FheUint<Vec<u8>, u32>) -> Vec<u8> {
@@ -349,21 +351,22 @@ macro_rules! backend_impl {
                 vec![starts, lens, vec![(rest.data.as_ptr() as usize - origin) as i128, rest.data.len() as i128], vec![avail as i128]]
             }
 
-            /// 20007 probe: ps = [be, kind, threads, per_thread] — exact-size 64-aligned arena of threads*per_thread bytes
+            /// 20007: ps = [be, kind, threads, per_thread] — the documented scratch sizing, nothing added:
+            ///   kind 0: circuit evaluation, 64-aligned arena of exactly threads*per_thread bytes
+            ///   kind 1: preparation,        64-aligned arena of exactly threads*per_thread bytes
+            ///   kind 2: preparation,        ScratchOwned::alloc(threads*per_thread)  (rounds the total up to 64)
             pub fn exact(r: &Rec) -> Vec<Vec<i128>> {
                 let (kind, threads, per) = (r.ps[1], r.ps[2] as usize, r.ps[3] as usize);
                 let ctx = &*CTX;
                 let (_, c) = ciphertext(7);
-                let need = match kind {
-                    1 => prep_tmp(&c),
-                    _ => ctx.module.execute_bdd_circuit_tmp_bytes(&ctx.glwe_infos(), 2, &ctx.ggsw_infos()),
-                };
-                if per != 0 { assert_eq!(per, need, "per-thread size changed"); }
-                let (mut buf, a0) = aligned_buf(threads * need);
-                let arena: &mut [u8] = &mut buf[a0..a0 + threads * need];
+                let need = per_thread(kind);
+                assert_eq!(per, need, "per-thread size changed");
+                let total = if kind == 2 { (threads * need).next_multiple_of(64) } else { threads * need };
+                let (mut buf, a0) = aligned_buf(total);
+                let arena: &mut [u8] = &mut buf[a0..a0 + total];
                 let scratch: &mut Scratch<BE> = Scratch::<BE>::from_bytes(arena);
                 match kind {
-                    1 => {
+                    1 | 2 => {
                         let mut p: Prep = FheUintPrepared::alloc_from_infos(&ctx.module, &ctx.ggsw_infos());
                         p.prepare_custom_multi_thread(threads, &ctx.module, &c, 0, threads, &ctx.bdd_key, scratch);
                     }
@@ -376,13 +379,13 @@ macro_rules! backend_impl {
                         ctx.module.execute_bdd_circuit_multi_thread(threads, &mut out, &ops.0, &circ, scratch);
                     }
                 }
-                vec![vec![1, need as i128, (need % 64) as i128]]
+                vec![vec![1]]
             }
 
             pub fn per_thread(kind: i128) -> usize {
                 let ctx = &*CTX;
                 match kind {
-                    1 => prep_tmp(&ciphertext(7).1),
+                    1 | 2 => prep_tmp(&ciphertext(7).1),
                     _ => ctx.module.execute_bdd_circuit_tmp_bytes(&ctx.glwe_infos(), 2, &ctx.ggsw_infos()),
                 }
             }
@@ -422,86 +425,106 @@ pub fn generate(tier: &str, seed: u64) -> Vec<Rec> {
     let thorough = tier == "thorough";
     let mut rng = Rng::new(seed);
     let cores = thread::available_parallelism().map(|x| x.get()).unwrap_or(8) as i128;
+    let s = seed as i128;
     let mut out = Vec::new();
 
-    // (i) cheap, high volume: every (items, threads) of a small square, plus random larger ones; extra tail slots
-    let (imax, tmax) = if thorough { (48, 52) } else { (20, 24) };
+    // (i) cheap, high volume.  20001: which thread asks for which index — every (items, threads) of a square
+    // (threads dividing, not dividing, exceeding the items), larger random ones, extra tail slots
+    let (imax, tmax) = if thorough { (72, 76) } else { (40, 44) };
     for items in 1..=imax {
         for threads in 1..=tmax {
             out.push(Rec::new(20001, vec![1 + (items + threads) % 2, 16, items, threads, (items * 7 + threads) % 4, 0], vec![]));
         }
     }
-    for _ in 0..(if thorough { 200 } else { 40 }) {
+    for _ in 0..(if thorough { 400 } else { 100 }) {
         let items = rng.range(1, 130) as i128;
         let threads = rng.range(1, 140) as i128;
-        out.push(Rec::new(20001, vec![1, 16, items, threads, rng.range(0, 5) as i128, 0], vec![]));
+        out.push(Rec::new(20001, vec![1 + rng.below(2) as i128, 16, items, threads, rng.range(0, 5) as i128, 0], vec![]));
     }
     // degenerate guards: items = 0 / threads = 0 must panic
     for (items, threads) in [(0, 1), (0, 3), (1, 0), (5, 0), (0, 0)] {
         out.push(Rec::new(20001, vec![1, 16, items, threads, 2, 0], vec![]));
     }
-    // slot <-> item with one real Cmux per item
-    let pairs: Vec<(i128, i128)> = if thorough {
-        (1..=24).flat_map(|i| (1..=26).map(move |t| (i, t))).collect()
-    } else {
-        vec![(1, 1), (1, 4), (2, 1), (2, 2), (2, 3), (3, 2), (5, 2), (5, 3), (5, 4), (5, 5), (5, 9), (7, 3), (7, 4), (7, 6), (8, 3), (9, 4), (9, 8),
-             (10, 4), (10, 7), (12, 5), (12, 11), (16, 5), (16, 6), (16, 7), (17, 16), (23, 5), (23, 22), (32, 3), (32, 5), (32, 8), (32, 12), (32, 31), (32, 33), (32, 64)]
-    };
-    for (k, (items, threads)) in pairs.iter().enumerate() {
-        let be = 1 + (k as i128 % 2);
-        let n = if k % 5 == 0 { 64 } else { 16 };
-        out.push(Rec::new(20002, vec![be, n, *items, *threads, (k as i128) % 3, seed as i128 + k as i128], vec![]));
+    // 20002: which item's result lands in which slot (one real Cmux per item, ring degree 16 or 64)
+    let (imax, tmax) = if thorough { (33, 36) } else { (17, 19) };
+    let mut k = 0i128;
+    for items in 1..=imax {
+        for threads in 1..=tmax {
+            k += 1;
+            out.push(Rec::new(20002, vec![1 + k % 2, if k % 7 == 0 { 64 } else { 16 }, items, threads, k % 3, s + k], vec![]));
+        }
     }
-    // split_mut windows: aligned and unaligned arenas, sizes that are / are not multiples of 64, too-small arenas
-    for _ in 0..(if thorough { 3000 } else { 600 }) {
+    for (items, threads) in [(32, 3), (32, 5), (32, 8), (32, 12), (32, 31), (32, 33), (32, 64), (64, 7), (64, 9), (100, 16), (100, 33)] {
+        k += 1;
+        out.push(Rec::new(20002, vec![1 + k % 2, 16, items, threads, 2, s + k], vec![]));
+    }
+    // 20006: split_mut windows: aligned / unaligned arenas, sizes that are / are not multiples of 64, too-small arenas
+    for _ in 0..(if thorough { 6000 } else { 2000 }) {
         let off = if rng.below(3) == 0 { 0 } else { rng.range(0, 63) as i128 };
         let n = rng.range(0, 9) as i128;
         let len = match rng.below(4) { 0 => 64 * rng.range(0, 6) as i128, 1 => 8 * rng.range(0, 40) as i128, _ => rng.range(0, 300) as i128 };
-        let need = n * ((len + 63) / 64 * 64);
-        let alen = match rng.below(5) { 0 => n * len, 1 => need, 2 => (need - rng.range(0, 70) as i128).max(0), 3 => need + rng.range(0, 130) as i128, _ => rng.range(0, 2400) as i128 };
+        let need = n * ((len + 63) / 64 * 64) + 64;
+        let alen = match rng.below(6) { 0 => n * len, 1 | 2 => need, 3 => (need - rng.range(0, 140) as i128).max(0), _ => need + rng.range(0, 130) as i128 };
         out.push(Rec::new(20006, vec![1 + rng.below(2) as i128, off, alen, n, len], vec![]));
     }
 
-    // (ii) the real thing at the test parameter set
-    let be_main = 2; // FFT64Avx for volume, FFT64Ref for a subset
-    let vseed = 11 + seed as i128;
-    let mut preps: Vec<(i128, i128, i128, i128)> = vec![
-        // (be, threads, start, count)
-        (be_main, 1, 0, 32), (be_main, 2, 0, 32), (be_main, 3, 0, 32), (be_main, 5, 0, 32), (be_main, 8, 0, 32), (be_main, 33, 0, 32), (be_main, 40, 0, 32),
-        (be_main, 3, 5, 7), (be_main, 2, 31, 1), (be_main, 5, 0, 1), (be_main, 4, 9, 10), (be_main, 7, 3, 29), (be_main, 6, 16, 16), (be_main, 3, 0, 31),
-        (be_main, 9, 1, 8), (be_main, 5, 20, 11),
-        (1, 3, 0, 32), (1, 5, 7, 13), (1, 40, 2, 30),
-    ];
-    if thorough {
-        preps.push((be_main, 2 * cores, 0, 32));
-        for _ in 0..60 {
-            let start = rng.range(0, 31) as i128;
-            let count = rng.range(1, 32 - start as i64) as i128;
-            preps.push((1 + rng.below(2) as i128, rng.range(1, 2 * cores as i64 + 3) as i128, start, count));
+    // (ii) the real thing at the test parameter set (N = 256, u32)
+    let tcs: Vec<i128> = vec![1, 2, 3, 5, 8, 33, 4, 7, 6, 9, 16, 31, 32, 40, 11, 13];
+    let vseed = 11 + s;
+    let mut preps: Vec<(i128, i128, i128, i128, i128)> = Vec::new(); // (be, threads, start, count, vseed)
+    // full preparation for every thread count 1..40 (and 2*cores), both backends alternating
+    for t in 1..=40 { preps.push((1 + t % 2, t, 0, 32, vseed)); }
+    preps.push((2, 2 * cores, 0, 32, vseed));
+    preps.push((2, 64, 0, 32, vseed));
+    // every (start, length), thread count cycling through the list (shifted by a per-run amount)
+    let mut j = s as usize;
+    for start in 0..32i128 {
+        for count in 1..=(32 - start) {
+            j += 1;
+            if !thorough && (start + count) % 2 == 1 && count > 3 && start > 2 { continue; } // quick: a covering subset
+            preps.push((if j % 4 == 0 { 1 } else { 2 }, tcs[j % tcs.len()], start, count, vseed));
         }
     }
-    for (be, t, s, c) in preps { out.push(Rec::new(20003, vec![be, t, s, c, vseed], vec![])); }
+    if thorough {
+        for _ in 0..300 {
+            let start = rng.range(0, 31) as i128;
+            let count = rng.range(1, 32 - start as i64) as i128;
+            preps.push((1 + rng.below(2) as i128, rng.range(1, 2 * cores as i64 + 3) as i128, start, count, vseed + 1 + rng.below(3) as i128));
+        }
+    }
+    for (be, t, st, c, v) in preps { out.push(Rec::new(20003, vec![be, t, st, c, v], vec![])); }
     // degenerate guards of prepare: bit_count = 0, threads = 0, range past the end
-    for (t, s, c) in [(2, 4, 0), (0, 0, 32), (2, 30, 3)] { out.push(Rec::new(20003, vec![be_main, t, s, c, vseed], vec![])); }
+    for (t, st, c) in [(2, 4, 0), (0, 0, 32), (2, 30, 3), (1, 32, 1)] { out.push(Rec::new(20003, vec![2, t, st, c, vseed], vec![])); }
 
-    let mut evals: Vec<(i128, i128, i128)> = Vec::new(); // (be, op, threads)
-    for t in [1, 2, 3, 5, 8, 33] { evals.push((be_main, 0, t)); }
-    for (op, t) in [(1, 3), (1, 7), (2, 5), (3, 6), (4, 9), (5, 1), (5, 3), (6, 2), (6, 40), (7, 11), (8, 13), (9, 32), (9, 31)] { evals.push((be_main, op, t)); }
-    for (op, t) in [(0, 3), (2, 5), (5, 4), (9, 7)] { evals.push((1, op, t)); }
-    if thorough {
-        for op in 0..10 { for t in [1, 2, 3, 4, 5, 6, 7, 8, 11, 16, 31, 32, 33, 2 * cores] { evals.push((1 + (op + t) % 2, op, t)); } }
+    // 20004: every circuit wrapper x thread counts
+    let ets: Vec<i128> = if thorough { (1..=40).chain([64, 2 * cores]).collect() } else { vec![1, 2, 3, 4, 5, 6, 7, 8, 11, 16, 31, 32, 33, 40, 2 * cores] };
+    for op in 0..10i128 {
+        for t in &ets {
+            out.push(Rec::new(20004, vec![1 + (op + t) % 2, op, *t, 21 + s, 22 + s], vec![]));
+        }
     }
-    for (be, op, t) in evals { out.push(Rec::new(20004, vec![be, op, t, 21 + seed as i128, 22 + seed as i128], vec![])); }
+    if thorough {
+        for r in 0..6i128 { for op in 0..10i128 { out.push(Rec::new(20004, vec![2, op, 3 + r, 40 + s + r, 50 + s + r], vec![])); } }
+    }
 
-    // shared Module + prepared keys + read-only operands, private scratch
-    out.push(Rec::new(20005, vec![be_main, 16, 31 + seed as i128], vec![]));
-    out.push(Rec::new(20005, vec![1, 8, 32 + seed as i128], vec![]));
-    if thorough {
-        out.push(Rec::new(20005, vec![be_main, 2 * cores, 33 + seed as i128], vec![]));
-        out.push(Rec::new(20005, vec![1, 2 * cores, 34 + seed as i128], vec![]));
+    // 20007: the documented scratch sizing with nothing added (the model predicts which calls panic in split_mut)
+    for be in [1i128, 2] {
+        for kind in [0i128, 1, 2] {
+            let per = if be == 1 { fft64_ref::per_thread(kind) } else { fft64_avx::per_thread(kind) } as i128;
+            for threads in [1i128, 2, 3, 4, 5] { out.push(Rec::new(20007, vec![be, kind, threads, per], vec![])); }
+        }
     }
-    let _ = (fft64_ref::per_thread as fn(i128) -> usize, fft64_avx::per_thread as fn(i128) -> usize);
+
+    // 20005: shared Module + prepared keys + read-only operands, private scratch; 16 threads, then oversubscribed
+    out.push(Rec::new(20005, vec![2, 16, 31 + s], vec![]));
+    out.push(Rec::new(20005, vec![1, 16, 32 + s], vec![]));
+    out.push(Rec::new(20005, vec![2, 2 * cores, 33 + s], vec![]));
+    if thorough {
+        for r in 0..6i128 { out.push(Rec::new(20005, vec![1 + r % 2, 2 * cores + r, 34 + s + r], vec![])); }
+    }
     out
 }
 
-fn main() { poulpy_verif_harness::run_main(generate, exec) }
+fn main() {
+    poulpy_verif_harness::run_main(generate, exec)
+}
